@@ -32,6 +32,22 @@ def op(name, a=0, b=0, c=0):
     return (name, a, b, c)
 
 
+# "any number of fibers": sizes of the anonymous crowds some cases add (waiters on one mutex, participants of one barrier,
+# yielders on one thread); around the powers of two a narrower counter or a fixed-size batch would break at
+CROWD_SIZES = [40, 130, 260, 300, 1030, 1100, 2100, 33000, 66000, 70000]
+
+
+def crowd_class(n):
+    return "crowd<=300" if n <= 300 else "crowd<=2100" if n <= 2100 else "crowd>=33000"
+
+
+def crowd_limits(n):
+    # large programs: fewer schedules each, larger point budgets
+    if n <= 300:
+        return {"max_sched": 12}
+    return {"max_sched": 4 if n <= 2100 else 2, "args": ["--soft", 400000000, "--hard", 800000000]}
+
+
 # --------------------------------------------------------------------------- C03
 @st.composite
 def mutex_case(draw, tier):
@@ -54,7 +70,14 @@ def mutex_case(draw, tier):
     classes = ["threads=%d" % threads]
     if any(o[0] == "trylock" for f in fibers for o in f):
         classes.append("has_trylock")
-    return {"harness": "mutex", "threads": threads, "cfg": {"nmutex": nm}, "fibers": fibers, "classes": classes}
+    case = {"harness": "mutex", "threads": threads, "cfg": {"nmutex": nm}, "fibers": fibers, "classes": classes}
+    if draw(ints(0, 39)) == 0:
+        # any number of waiters: one fiber holds the mutex while a crowd of further fibers runs into it
+        n = draw(st.sampled_from(CROWD_SIZES))
+        fibers[0].insert(0, op("lockcrowd", draw(ints(0, nm - 1)), n))
+        classes.append(crowd_class(n))
+        case.update(crowd_limits(n))
+    return case
 
 
 def c03_parts(tier):
@@ -197,7 +220,18 @@ def barrier_case(draw, tier):
         cfg["nbar"] = 2
         cfg["bar_count1"] = c2
         classes.append("two_groups")
-    return {"harness": "barrier", "threads": threads, "cfg": cfg, "fibers": fibers, "classes": classes}
+    case = {"harness": "barrier", "threads": threads, "cfg": cfg, "fibers": fibers, "classes": classes}
+    if draw(ints(0, 29)) == 0:
+        # any number of participants: the first fiber starts a crowd of further participants of barrier 0
+        n = draw(st.sampled_from([c for c in CROWD_SIZES if c <= 2100]))
+        fibers[0].insert(0, op("bcrowd", n, rounds))
+        cfg["bar_count0"] = count + n
+        if "bar_start" in cfg:
+            del cfg["bar_start"]
+            classes.remove("counter_near_2^32")
+        classes.append(crowd_class(n))
+        case.update(crowd_limits(n))
+    return case
 
 
 # --------------------------------------------------------------------------- C18
@@ -453,6 +487,15 @@ def yield_case(draw, tier):
         pos = draw(ints(0, len(fibers[by])))
         fibers[by].insert(pos, op("spawn", d))
     classes = ["threads=%d" % threads, "fibers>=3" if nf >= 3 else "fibers=2", "deferred_spawn" if deferred else "all_at_start"]
+    if draw(ints(0, 11)) == 0:
+        # many ready fibers on the thread: the first fiber starts a crowd of yielders before anything else; the program
+        # fibers then yield long enough for several rounds of the whole crowd
+        n = draw(st.sampled_from([40, 130, 260, 300, 520]))
+        k = draw(ints(6, 9))
+        fibers[0].insert(0, op("crowd", n, k))
+        for f in fibers[:3]:
+            f.append(op("yield", draw(ints(4, 8))))
+        classes.append("crowd>255" if n > 255 else "crowd<=255")
     return {"harness": "yield", "threads": threads, "cfg": {"defer_from": n_initial}, "fibers": fibers, "classes": classes}
 
 
@@ -567,32 +610,39 @@ def one_part(name, strat_fn, q_sched=32, t_sched=160, tso_thorough=1):
 SCHED_TXT = ("each program runs under 32 (quick) / 160 (thorough) generated schedules: 1 fair baseline, then random walk p in {1/4..1/256}, PCT depth 1-5 and "
              "targeted-delay PCT whose change points fall on accesses to the object under test; distinct = distinct (program, decision list). ")
 
-SPECS["C03"] = rt_spec("C03", one_part("mutex", mutex_case), {"quick": 9000, "thorough": 40000},
+SPECS["C03"] = rt_spec("C03", one_part("mutex", mutex_case), {"quick": 30000, "thorough": 150000},
     "Hypothesis generates fiber programs over 1-2 mutexes (lock/trylock sections whose bodies read-modify-write a plain cell and may yield, plus yield/work) "
     "on 1-3(4) virtual kernel threads; " + SCHED_TXT + "Non-trivial = at least one lock call was contended (the locker was suspended in the waiter queue and "
     "resumed by an unlock); 'early_wake' in the histogram counts unlocks that found the locker between its decrement and its context switch.")
-SPECS["C06"] = rt_spec("C06", one_part("sem", sem_case), {"quick": 9000, "thorough": 40000},
+SPECS["C06"] = rt_spec("C06", one_part("sem", sem_case), {"quick": 30000, "thorough": 150000},
     "Programs over 1-2 semaphores (initial 0-3): wait{body}post, trywait{body}post, unpaired post (first in a fiber) and unpaired wait, missing units supplied by a late "
     "poster fiber so that waiters really block; " + SCHED_TXT + "Oracle: admissions <= initial + posts begun at every instant, trywait never suspends, value == "
     "initial + posts - admissions at quiescence, nobody stranded. Non-trivial = at least one wait blocked and was released by a post.")
-SPECS["C07"] = rt_spec("C07", one_part("rwlock", rwlock_case), {"quick": 9000, "thorough": 40000},
+SPECS["C07"] = rt_spec("C07", one_part("rwlock", rwlock_case), {"quick": 30000, "thorough": 150000},
     "Programs of rd/wr/tryrd/trywr sections (bodies may yield) over 1-2 rwlocks, biased towards 'writer waits while readers keep arriving' and 'readers queue behind a "
     "writer'; " + SCHED_TXT + "Oracle: occupancy ghost (writers <= 1, writers*readers == 0), try variants never suspend and succeed only when legal, writer's data "
     "visible to next holders, state word 0 and nobody stranded at quiescence. Non-trivial = at least one lock call blocked and was admitted by an unlock.")
-SPECS["C12"] = rt_spec("C12", one_part("barrier", barrier_case), {"quick": 9000, "thorough": 40000},
+SPECS["C12"] = rt_spec("C12", one_part("barrier", barrier_case), {"quick": 30000, "thorough": 150000},
     "count 1-5(6), exactly count fibers, 1-6 back-to-back rounds with optional yield/work between, optionally a second independent group; " + SCHED_TXT +
     "Oracle: on return from the k-th wait all count fibers have entered their k-th wait, exactly one serial fiber per round, everyone returns. "
     "Non-trivial = >= 2 rounds and at least one participant actually blocked.")
-SPECS["C18"] = rt_spec("C18", one_part("spin", spin_case), {"quick": 9000, "thorough": 40000},
-    "lock/trylock sections with non-yielding bodies over 1-2 spinlocks whose ticket/users words start at 0, 2^31-1 or just below 2^32 (wrap-around); " + SCHED_TXT +
+def c18_parts(tier):
+    # the per-descriptor locks of the event layer are fiber spinlocks too (anchor src/fiber_event_native.c): descriptor programs,
+    # in particular close racing with a fiber registering on the same descriptor, exercise lock/unlock pairing there
+    return [dict(one_part("spin", spin_case)(tier)[0], share=0.75),
+            {"name": "fd_locks", "strategy": io_case(tier), "nsched": T(tier, 24, 96), "args": ["--tso", 0, "--soft", 3000000, "--hard", 30000000], "share": 0.25}]
+SPECS["C18"] = rt_spec("C18", c18_parts, {"quick": 30000, "thorough": 150000},
+    "(a) lock/trylock sections with non-yielding bodies over 1-2 spinlocks whose ticket/users words start at 0, 2^31-1 or just below 2^32 (wrap-around); " + SCHED_TXT +
     "Oracle: occupancy ghost, the k-th acquisition is served ticket start+k (FIFO ticket order, trylock takes a ticket too), trylock and the holder are never "
-    "suspended, ticket == users at the end. Non-trivial = a contender spun or a trylock failed.")
-SPECS["C05"] = rt_spec("C05", one_part("cond", cond_case), {"quick": 9000, "thorough": 40000},
+    "suspended, ticket == users at the end. (b) a quarter of the budget: the descriptor programs of C08 (the event layer guards every descriptor with a fiber spinlock; "
+    "close racing with a registering fiber on 2-3 kernel threads), oracle there: every blocked fiber is resumed, no thread spins for ever on a descriptor lock. "
+    "Non-trivial = a contender spun or a trylock failed (a), a call really suspended its fiber (b).")
+SPECS["C05"] = rt_spec("C05", one_part("cond", cond_case), {"quick": 30000, "thorough": 150000},
     "1-4(6) waiters doing bare waits (no predicate loop, 1-3 immediate re-waits), 1-3(5) signaller fibers issuing signal/broadcast both holding the user mutex and without it, "
     "a parked controller that runs only at quiescence; " + SCHED_TXT + "Oracle: every signal/broadcast begun while a definitely registered waiter exists creates an obligation, "
     "waits returned >= obligations at each quiescence (no lost signal; proof of soundness in DESIGN 4/C05), waits returned <= signals + broadcast coverage (no release "
     "without signal), user mutex owned on return (occupancy ghost). Non-trivial = at least one obligation.")
-SPECS["C04"] = rt_spec("C04", one_part("join", join_case), {"quick": 9000, "thorough": 40000},
+SPECS["C04"] = rt_spec("C04", one_part("join", join_case), {"quick": 30000, "thorough": 150000},
     "1-3(5) targets with generated pre-finish work, each with one scenario: sole join, tryjoin-until-success, detach (before/after finish), two contenders on a gated target "
     "(join+join, join+tryjoin), join/tryjoin after detach on a gated target, detach while another fiber is blocked in join; " + SCHED_TXT +
     "Oracle: success only after the target's function returned and with its token, <= 1 success per target, join after detach fails, destroy hooks: reclaimed exactly once "
@@ -634,25 +684,25 @@ def c11_parts(tier):
     return [{"name": "chan", "strategy": chan_case(tier), "nsched": T(tier, 32, 160), "args": ["--tso", T(tier, 0, 1)], "share": 0.5},
             {"name": "mchan", "strategy": mchan_case(tier), "nsched": T(tier, 32, 160), "args": ["--tso", T(tier, 0, 1)], "share": 0.3},
             {"name": "chan_after_msig", "strategy": chan_after_msig_case(tier), "nsched": T(tier, 32, 160), "args": ["--tso", T(tier, 0, 1)], "share": 0.2}]
-SPECS["C11"] = rt_spec("C11", c11_parts, {"quick": 9000, "thorough": 40000},
+SPECS["C11"] = rt_spec("C11", c11_parts, {"quick": 30000, "thorough": 150000},
     "bounded channel (2^1..2^4 slots, with signal and spinning), unbounded MPSC channel (with signal / spinning), single-producer channel: 1-4 senders (1 for SP), one receiver, "
     "1-12(30) messages per sender in bursts; multi channel: 1-4 senders, 1-3 receivers, capacity 2-8; " + SCHED_TXT + "Oracle: multiset(received) == multiset(sent), per-sender "
     "order, sends completed - receives begun <= capacity, nobody stranded at quiescence. Non-trivial = a receiver (or multi-channel sender) really blocked and was woken, or >= 2 kernel threads.")
 def c20_parts(tier):
     return [{"name": "msig", "strategy": msig_case(tier), "nsched": T(tier, 32, 160), "args": ["--tso", T(tier, 0, 1)]}]
-SPECS["C09"] = rt_spec("C09", one_part("sleep", sleep_case, 24, 96, 0), {"quick": 4800, "thorough": 24000},
+SPECS["C09"] = rt_spec("C09", one_part("sleep", sleep_case, 24, 96, 0), {"quick": 30000, "thorough": 150000},
     "1-8(12) sleepers on 1-3(4) kernel threads through sleep/usleep/nanosleep/fiber_sleep with durations {0,1us,999us,1ms,4.999ms,5ms,7ms,3ms(shared),12ms,25ms,1s+1us,2s+999999us}, "
     "woken fibers scribble their stack and sleep again; virtual clock: g ticks per quiescence; 'backlog' class lets ticks pile up unread while fibers are busy; finite ticker fibers; "
     + SCHED_TXT + "Oracle: virtual time between call and return >= requested, exactly-once wake (pending-wake ghost), no real libc sleep reached, shadow heap + crash capture for the "
     "dead-frame walk. Non-trivial = at least one sleep call completed.")
-SPECS["C10"] = rt_spec("C10", one_part("yield", yield_case, 8, 24, 0), {"quick": 7500, "thorough": 30000},
+SPECS["C10"] = rt_spec("C10", one_part("yield", yield_case, 8, 24, 0), {"quick": 30000, "thorough": 150000},
     "2-8 fibers that only yield (budgets up to 200 per op) / work / spawn deferred fibers, on 1 kernel thread (60%) or 2-3; " + SCHED_TXT +
     "Oracle from the hook trace: while a fiber is ready on a kernel thread, at most 2*(fibers+1)+2 other fibers are switched in there before it runs. "
     "Non-trivial = >= 3 simultaneously ready fibers and total yield budget >= 5x the bound.")
 def c01_parts(tier):
     return [{"name": "mixed", "strategy": mixed_case(tier), "nsched": T(tier, 32, 160), "args": ["--tso", T(tier, 0, 1)], "share": 0.8},
             {"name": "storm", "strategy": mixed_case(tier, storm=True), "nsched": T(tier, 32, 160), "args": ["--tso", T(tier, 0, 1)], "share": 0.2}]
-SPECS["C01"] = rt_spec("C01", c01_parts, {"quick": 7500, "thorough": 36000},
+SPECS["C01"] = rt_spec("C01", c01_parts, {"quick": 30000, "thorough": 150000},
     "mixed programs: random parallel composition of terminating gadgets over mutex, semaphore, rwlock, spinlock, barrier, channel+signal, join/tryjoin/detach, cond, multi-signal, "
     "virtual-time sleeps, yield; plus create/yield storms; " + SCHED_TXT + "Oracle: running-on map fed by the switch hooks (target of every switch must be SAVED, destroy only of a SAVED "
     "DONE fiber, once), pending-wake ghost, shadow heap (no access to a reclaimed control block or stack), all sub-oracles. Non-trivial = >= 2 kernel threads and at least one steal; "
@@ -717,6 +767,9 @@ def mpmc_case(draw, tier):
         # enough push/pop pairs for scans and node reuse to happen while the first one is held back
         n = draw(ints(9, 16))
         worker = [op("push", n), op("pop", n), op("push", draw(ints(1, 4)))]
+        # ... optionally going on until a recycled node is at the head again (ABA on fifo->head)
+        for _ in range(draw(ints(0, 3))):
+            worker.append(op(draw(st.sampled_from(["pop", "push"])), draw(ints(1, 6))))
         victim = small = [op("pop", draw(ints(1, 2)), draw(ints(0, 1)))]
         fibers = [worker, victim] if draw(st.booleans()) else [victim, worker]
         rec, far = draw(ints(0, 1)), draw(ints(0, 1))
@@ -746,23 +799,42 @@ def mpmc_case(draw, tier):
     return {"harness": "mpmc", "threads": 1, "cfg": {"recycle": recycle, "lazy_records": lazy, "far": 1 if far else 0}, "fibers": fibers, "classes": classes}
 
 
+POW2_BOUNDARIES = [8, 15, 16, 31, 32]
+
+
 @st.composite
 def queue_case(draw, tier):
-    kind = draw(st.sampled_from([0, 0, 1, 2]))
+    kind = draw(st.sampled_from([0, 0, 1, 2, 2]))
     nprod = 1 if kind == 1 else draw(ints(1, 4))
     fibers = []
-    for lane in range(nprod):
-        ops = []
-        for _ in range(draw(ints(1, 3))):
-            ops.append(op("push", draw(ints(1, 6)), draw(ints(0, 2)), lane))
-        fibers.append(ops)
+    nlanes = nprod
+    if kind == 2 and draw(st.booleans()):
+        # relaxed queue, any number of producers: 2..12 producer lanes spread over 2..5 threads (a lane has one owner; a
+        # thread may own several lanes and pushes to them in any order)
+        nprod = draw(ints(2, 5))
+        nlanes = draw(ints(nprod, 12))
+        owner = list(range(nprod)) + [draw(ints(0, nprod - 1)) for _ in range(nlanes - nprod)]
+        owner = draw(st.permutations(owner))
+        for t in range(nprod):
+            mine = [l for l in range(nlanes) if owner[l] == t]
+            ops = []
+            for _ in range(draw(ints(1, 4))):
+                ops.append(op("push", draw(ints(1, 4)), draw(ints(0, 2)), draw(st.sampled_from(mine))))
+            fibers.append(ops)
+    else:
+        for lane in range(nprod):
+            ops = []
+            for _ in range(draw(ints(1, 3))):
+                ops.append(op("push", draw(ints(1, 6)), draw(ints(0, 2)), lane))
+            fibers.append(ops)
     cons = []
     for _ in range(draw(ints(1, 5))):
         k = draw(st.sampled_from(["pop", "pop", "poppush", "peek"] if kind == 0 else ["pop"]))
         cons.append(op(k, draw(ints(1, 6)), draw(ints(0, 2))))
     fibers.insert(draw(ints(0, len(fibers))), cons)
     names = {0: "mpsc", 1: "spsc", 2: "mpsc_relaxed"}
-    return {"harness": "queue", "threads": 1, "cfg": {"qkind": kind, "lanes": nprod}, "fibers": fibers, "classes": [names[kind], "producers=%d" % nprod]}
+    return {"harness": "queue", "threads": 1, "cfg": {"qkind": kind, "lanes": nlanes}, "fibers": fibers,
+            "classes": [names[kind], "producers=%d" % nlanes if nlanes <= 4 else "producers>4"]}
 
 
 @st.composite
@@ -776,14 +848,24 @@ def ring_case(draw, tier):
         fibers.append([op("tpop", draw(ints(2, 10)), draw(ints(0, 2)))])
     order = draw(st.permutations(list(range(len(fibers)))))
     fibers = [fibers[i] for i in order]
-    return {"harness": "ring", "threads": 1, "cfg": {"cap_log2": cap}, "fibers": fibers, "classes": ["cap=%d" % (1 << cap), "pushers=%d" % npush, "poppers=%d" % npop]}
+    # lifetime position of the indices: fresh, or just below a power-of-two boundary they are about to cross
+    base = 0
+    if draw(ints(0, 2)) == 0:
+        base = 2 ** draw(st.sampled_from(POW2_BOUNDARIES)) - draw(ints(0, 2 << cap))
+    return {"harness": "ring", "threads": 1, "cfg": {"cap_log2": cap, "index_base": base}, "fibers": fibers,
+            "classes": ["cap=%d" % (1 << cap), "pushers=%d" % npush, "poppers=%d" % npop, "index_base=%s" % ("0" if not base else "near_2^%d" % (base - 1).bit_length())]}
 
 
 @st.composite
 def workq_case(draw, tier):
     nth = draw(ints(2, 4))
     fibers = [[op("wpush", draw(ints(1, 10)), draw(ints(0, 3)), draw(ints(0, 3)))] for _ in range(nth)]
-    return {"harness": "workq", "threads": 1, "cfg": {}, "fibers": fibers, "classes": ["threads=%d" % nth]}
+    # length of the worker session the case starts in: none, or one that has already handed out just under 2^k items
+    base = 0
+    if draw(ints(0, 2)) == 0:
+        base = 2 ** draw(st.sampled_from(POW2_BOUNDARIES)) - draw(ints(1, 8))
+    return {"harness": "workq", "threads": 1, "cfg": {"session_base": base}, "fibers": fibers,
+            "classes": ["threads=%d" % nth, "session_base=%s" % ("0" if not base else "near_2^%d" % (base - 1).bit_length())]}
 
 
 @st.composite
@@ -841,40 +923,41 @@ def hazard_case(draw, tier):
 
 
 def c02_parts(tier):
-    return [dict(ds_part("deque", deque_case)(tier), share=0.6),
-            {"name": "storm", "strategy": mixed_case(tier, storm=True), "nsched": T(tier, 32, 160), "args": ["--tso", T(tier, 0, 1)], "share": 0.4}]
-SPECS["C02"] = Spec("C02", "runner_rt", c02_parts, {"quick": 7800, "thorough": 36000},
+    return [dict(ds_part("deque", deque_case)(tier), share=0.5),
+            {"name": "storm", "strategy": mixed_case(tier, storm=True), "nsched": T(tier, 32, 160), "args": ["--tso", T(tier, 0, 1)], "share": 0.3},
+            {"name": "mixed", "strategy": mixed_case(tier), "nsched": T(tier, 32, 160), "args": ["--tso", T(tier, 0, 1)], "share": 0.2}]
+SPECS["C02"] = Spec("C02", "runner_rt", c02_parts, {"quick": 30000, "thorough": 150000},
     rule=("(a) one owner thread with generated push bursts (1..520, crossing the 2^8->2^9->2^10 growth) and pops against 1-3 thieves stealing a generated number of times; classes: "
           "single-element owner/thief races, growth under steal, mixed; " + DS_SCHED + "Oracle: every value handed out was pushed, at most once; after a final owner drain every pushed value "
           "was handed out exactly once; pop_bottom may say EMPTY only if all pushed values were taken by operations already begun; ABORT is a no-op; shadow heap on stale arrays. "
-          "(b) whole-runtime create/yield/lock storms on 2-3(4) kernel threads with the pending-wake ghost: a fiber made runnable is switched in exactly once per wake-up and nothing is "
+          "(b) whole-runtime create/yield/lock storms and mixed programs (every wake-up path: mutex, semaphore, rwlock, condition, channel, signal, join, sleep) on 2-3(4) kernel threads with the pending-wake ghost and the owner-only-push ghost: a fiber made runnable is switched in exactly once per wake-up and nothing is "
           "left queued at quiescence. Non-trivial = (a) a successful steal together with an aborted CAS or a growth, (b) >= 2 kernel threads and at least one steal."),
     assumptions=DS_ASSUME + RT_ASSUME[2:], technique=DS_TECH + "; runtime part: pending-wake ghost over Hypothesis-generated fiber programs")
-SPECS["C13"] = ds_spec("C13", lambda tier: [ds_part("mpmc", mpmc_case)(tier)], {"quick": 7500, "thorough": 36000},
+SPECS["C13"] = ds_spec("C13", lambda tier: [ds_part("mpmc", mpmc_case)(tier)], {"quick": 30000, "thorough": 150000},
     "1-3 pushers (that may also pop) and 1-3 poppers, each with its own hazard record (registered up-front or lazily mid-run), unique values, nodes either freed by the gc callback "
     "(shadow-heap oracle) or recycled into the next push at once (ABA); " + DS_SCHED + "Oracle: FIFO linearizability with 'empty is excused if a push overlaps' for histories <= 40 ops; "
     "always: exactly-once after a final drain, nothing invented, real-time order of non-overlapping pushes, EMPTY only if nothing completed is pending or something overlaps. "
     "Non-trivial = >= 2 overlapping operations and at least one value transferred.")
-SPECS["C14"] = ds_spec("C14", lambda tier: [ds_part("hazard", hazard_case)(tier)], {"quick": 7500, "thorough": 36000},
+SPECS["C14"] = ds_spec("C14", lambda tier: [ds_part("hazard", hazard_case)(tier)], {"quick": 30000, "thorough": 150000},
     "1-4 records x 1-4 slots over 4 shared cells: protect (load, publish, fence, validating re-read), deref, release, replace (swap in a fresh node, retire the old one), explicit scan, "
     "records that register mid-run; allocation padding shapes the sorted address snapshot; " + DS_SCHED + "Oracle: the gc callback never sees a node with a protection validated before its "
     "retirement; no deref of a reclaimed node (ghost + shadow heap); retired_count <= threshold after each retire; after a closing phase of 2*N*K dummy retirements per record everything "
     "that record retired earlier has been reclaimed. Non-trivial = at least one validated protection and one reclamation.")
-SPECS["C15"] = ds_spec("C15", lambda tier: [ds_part("queue", queue_case)(tier)], {"quick": 7500, "thorough": 36000},
+SPECS["C15"] = ds_spec("C15", lambda tier: [ds_part("queue", queue_case)(tier)], {"quick": 30000, "thorough": 150000},
     "strict MPSC (1-4 producers), SPSC, relaxed MPSC (one lane per producer) with one consumer doing trypop / peek / pop-then-repush on the returned node; " + DS_SCHED +
     "Oracle: FIFO linearizability (empty excused by an overlapping push) for strict queues with <= 40 ops; always exactly-once, nothing invented, per-producer FIFO, real-time order for "
     "the strict queues, EMPTY only if no completed push is pending or a push overlaps. Non-trivial = at least one overlapping pair and one value transferred.")
-SPECS["C16"] = ds_spec("C16", lambda tier: [ds_part("ring", ring_case)(tier)], {"quick": 7500, "thorough": 36000},
+SPECS["C16"] = ds_spec("C16", lambda tier: [ds_part("ring", ring_case)(tier)], {"quick": 30000, "thorough": 150000},
     "capacity 2-8, 1-3 pushers and 1-3 poppers each issuing 2-10 trypush/trypop, so the slot index wraps several times; " + DS_SCHED + "Oracle: linearizability against a bounded FIFO "
     "where a failed trypush/trypop is legal if full/empty at the linearisation point or any operation overlaps; completed pushes - begun pops <= capacity at every instant; exactly-once "
     "after a final drain; real-time FIFO order. Non-trivial = an overlapping pair and index wrap-around.")
-SPECS["C17"] = ds_spec("C17", lambda tier: [ds_part("workq", workq_case)(tier)], {"quick": 7500, "thorough": 36000},
+SPECS["C17"] = ds_spec("C17", lambda tier: [ds_part("workq", workq_case)(tier)], {"quick": 30000, "thorough": 150000},
     "2-4 threads pushing 1-10 items each; whoever is told START_WORKING pulls until EMPTY with generated work between pulls; " + DS_SCHED + "Oracle: worker sessions [START returned, "
     "call of the get_work that said EMPTY] are pairwise disjoint; every item handed out exactly once; nothing left queued when all threads are done. Non-trivial = a push was QUEUED while a worker was active.")
 def c20_parts(tier):
     return [dict(ds_part("dwcas", dwcas_case)(tier), share=0.6),
             {"name": "msig", "strategy": msig_case(tier), "nsched": T(tier, 32, 160), "args": ["--tso", T(tier, 0, 1)], "share": 0.4}]
-SPECS["C20"] = Spec("C20", "runner_rt", c20_parts, {"quick": 7800, "thorough": 36000},
+SPECS["C20"] = Spec("C20", "runner_rt", c20_parts, {"quick": 30000, "thorough": 150000},
     rule=("(a) LIFO with push / pop / pop-and-immediately-repush-the-same-node by 2-4 threads, dist FIFO with one pusher and 1-3 poppers (RETRY is a no-op), flushable stack with push / "
           "lifo_flush / fifo_flush; the cmpxchg16b hook makes the snapshot->CAS window a scheduling point; " + DS_SCHED + "Oracle: linearizability against LIFO / FIFO / 'flush returns "
           "everything pushed since the last flush in (reverse) push order', exactly-once per push generation. (b) multi-signal on the fiber runtime: 1-4 waiter fibers, raise / raise_strict, "
@@ -929,12 +1012,18 @@ def io_case(draw, tier):
                     w.append(op("nbmode", a, 1, draw(st.sampled_from([1, 2]))))
                     classes.append("nonblocking_writer")
                 left = total
+                w_back = "nonblocking_writer" in classes and w and w[-1][0] == "nbmode" and draw(st.booleans())
                 while left > 0:
                     n = draw(ints(1, left))
                     dw = draw(ints(0, 5)) == 0
                     w.append(op("wr", a, n, draw(ints(0, 4)) | (_chunk_for(draw, n) << 4) | ((1 if dw else 0) << 12)))
                     w.extend(small_ops(draw, 1))
                     left -= n
+                    if w_back and left > 0:
+                        # the writer's end goes back to blocking mode before the rest is written
+                        w.append(op("nbmode", a, 1, draw(st.sampled_from([3, 4]))))
+                        classes.append("writer_back_to_blocking")
+                        w_back = False
                 w.append(op("wclose", a))
                 dw = draw(ints(0, 5)) == 0
                 if dw:
@@ -982,7 +1071,7 @@ def _chunk_for(draw, n):
 
 
 SPECS["C08"] = rt_spec("C08", lambda tier: [{"name": "io", "strategy": io_case(tier), "nsched": T(tier, 24, 96), "args": ["--tso", 0, "--soft", 3000000, "--hard", 30000000]}],
-    {"quick": 3600, "thorough": 20000},
+    {"quick": 30000, "thorough": 150000},
     "real descriptors under virtual epoll timing: 1-3 streams (AF_UNIX stream socketpairs, optionally both directions on one descriptor and a small SO_SNDBUF, and pipes) each with a writer "
     "fiber (write/writev/send/sendto/sendmsg in generated chunk sizes 1 B .. 300 KB, some with MSG_DONTWAIT) that closes at the end and a reader fiber (read/readv/recv/recvfrom/recvmsg) that "
     "reads until EOF; descriptors switched to non-blocking mode with fcntl(O_NONBLOCK) / ioctl(FIONBIO) and back; a reader blocked on a descriptor that another fiber closes; an AF_UNIX "
